@@ -13,7 +13,7 @@ from kverif.common import Deadline, case_rng, stable_hash, tier_value
 ID = 'C14'
 LEVEL = 'exploration'
 EXHAUSTIVE = True
-RULE = ('every n in 1..N (quick 256, thorough 768) x {float16,bfloat16,float32,float64} x contents {min(i,j), max(i,j), random symmetric, '
+RULE = ('every n in 1..N (quick 256, thorough 1024) x {float16,bfloat16,float32,float64} x contents {min(i,j), max(i,j), random symmetric, '
         'n*i+j symmetrised} x layouts {contiguous, transposed view, strided slice}: exact round trip and packed length n(n+1)/2; '
         'simulated worlds of 2-4 ranks: symmetric vs dense allreduce/broadcast/bucketed exact equality; non-square and non-2-D shapes must raise '
         'NonSquareTensorError with zero backend operations; non-trivial: n>=2; distinct = (n, dtype, content, layout)')
@@ -172,10 +172,10 @@ def comm_case(rng, res, idx):
 
 
 def plan(tier, seed):
-    N = tier_value(tier, 256, 768)
+    N = tier_value(tier, 256, 1024)
     shards = tier_value(tier, 6, 12)
     specs = [dict(kind='roundtrip', ns=list(range(1, N + 1))[i::shards], budget_s=tier_value(tier, 40, 400)) for i in range(shards)]
-    nc = tier_value(tier, 160, 2400)
+    nc = tier_value(tier, 160, 8000)
     cs = tier_value(tier, 4, 8)
     specs += [dict(kind='comm', first=i * (nc // cs), count=nc // cs, budget_s=tier_value(tier, 40, 300)) for i in range(cs)]
     return specs
